@@ -19,6 +19,15 @@ CLAIMED = {
  "C08": dict(technique="property-based testing against a reference unification computed from abstract content (collision-biased generator), plus idempotence and purity relations",
              text="Recipes with forced identifier collisions (same kind with equal / subset / conflicting formal arguments, other kinds, other prefixes, inside bundles) are unified by the library and by a reference implementation over the intents; raise/no-raise, ordered strict content, bundle identifiers, idempotence, novelty of the result and immutability of the source are compared, for ProvDocument.unified() and ProvBundle.unified().",
              note="Trusted: the reference unification (60 lines over abstract content). Multi-member memberships (compatibility path) are outside the claim and discarded with a counter.", ref="4 C08"),
+ "C02": dict(technique="property-based round trip (Hypothesis recipes in the XML-expressible subspace + exhaustively enumerated value kind x attribute slot x record class x force_types core), strict URI-level kind-aware multiset oracle",
+             text="As C01 for PROV-XML: recipes restricted by construction to the statement's XML-expressible subspace (re-checked on the built document), both force_types values, text and binary destinations, subtype prov:type values as names and as strings, default namespaces at both levels; compared after the round trip with the strict canonical form. The value/slot/record-class/force_types product is enumerated exhaustively in every run.",
+             note="Trusted: canon(), the expressibility predicate (pbt/xmlx.py). Bounded document sizes.", ref="4 C02"),
+ "C09": dict(technique="stateful property-based testing (RuleBasedStateMachine) against a multiset conservation model",
+             text="A pool of documents built from random recipes is driven through update / add_bundle / bundle / flattened in random order; a model of multisets of canonical records per container is updated by the stated conservation law and every pool document (targets and arguments alike) is compared with its model after every step; each refusal must be a ProvException that changes nothing.",
+             note="Trusted: the conservation model (intents + bag arithmetic). Histories bounded (14/20 steps, 5 documents, recipes of <= 7 ops).", ref="4 C09"),
+ "C18": dict(technique="stateful property-based testing (RuleBasedStateMachine): index lookups versus a scan of the record list after every record-adding path",
+             text="Every record-adding path (factories, new_record, add_record, update, add_bundle, constructor, JSON and XML deserialisation, unified, flattened) is exercised in random order on a document with bundles and a second document; after every step every container answers get_record(x) for every pool identifier in every accepted spelling, get_records(cls) for 23 class filters and the copy semantics of records/get_records(), all compared by object identity and order with a scan of get_records().",
+             note="Trusted: the scan oracle (list comprehension over get_records()). Identifier pool of 4 URIs, histories of 25/30 steps.", ref="4 C18"),
 }
 PENDING_REASON = "check not built yet in this round (design in DESIGN.md section 4); not claimed until the check exists and is quiet on the unchanged tree"
 checks = []
